@@ -831,7 +831,7 @@ pub fn rand_eval(rng: &mut Rng, labels: &[(String, usize)]) -> Cmd {
 /// it is now, not as it was loaded.
 pub fn move_value(rng: &mut Rng) -> u16 {
     if rng.chance(1, 2) {
-        *rng.pick(&[0xF025u16, 0xF025, 0xF125, 0xFF25, 0xCFFF, 0x4800, 0x4801, 0x4FFF, 0x4040, 0x41C0, 0xC1C0, 0xD800, 0xDC00, 0xDC01, 0x0FFF, 0x0000, 0xF021, 0xF0FF, 0x8000])
+        *rng.pick(&[0xF025u16, 0xF025, 0xF125, 0xFF25, 0xCFFF, 0xDBFF, 0x467F, 0x4800, 0x4801, 0x4FFF, 0x4040, 0x41C0, 0xC1C0, 0xD800, 0xDC00, 0xDC01, 0x0FFF, 0x0000, 0xF021, 0xF0FF, 0x8000])
     } else {
         rng.u16()
     }
@@ -1062,6 +1062,9 @@ fn small_programs() -> Vec<(u16, Vec<u16>, bool, &'static str)> {
         (0x3000, vec![0x1021, 0x1021, 0xF125, 0x1021, 0xF025], false, "halt-junk-bits"),
         (0x3000, vec![0x1021, 0xFF25, 0x1021, 0xF025], false, "halt-junk-bits-f"),
         (0x3000, vec![0x4802, 0x1021, 0xF825, 0x1261, 0xCFFF], false, "ret-junk-bits"),
+        // RETS with bits [9:0] set, JSRR R1 with bits [10:9] and [5:0] set
+        (0x3000, vec![0x1021, 0xDC01, 0xF025, 0x1261, 0xDBFF], true, "rets-junk-bits"),
+        (0x3000, vec![0xE202, 0x467F, 0xF025, 0x1261, 0xC1C0], false, "jsrr-junk-bits"),
     ]
 }
 
